@@ -301,7 +301,45 @@ def rule_fw_shape(crate, prop, tier):
                         return True
             return False
         o.check(fx.holds(b, better), who, "F3-improvement", "the store is not guarded by sum < dist[a][c] of the cell that is written", ev["span"])
+        # F5: inside the triple loop the update is skipped only for an infinite operand, for a sum that is no improvement,
+        # or for coinciding indices (no-ops when the diagonal is 0); any other test that can bypass the update prunes relaxations
+        loops_ = [an.cfg.loop_of(nev["b"]) for nev, _ in its]
+        inside = set()
+        for h in loops_:
+            inside |= an.cfg.loops.get(h, set())
+        next_sites = {nev["res"] for nev, _ in its}
+        for sw in an.events:
+            if sw["k"] != "switch" or sw["b"] not in inside or not an.cfg.dominates(sw["b"], b) or sw["b"] == b:
+                continue
+            dsc = sw["discr"]
+            if dsc[0] == "discr" and dsc[1] in next_sites:
+                continue
+            o.check(_fw_allowed_guard(dsc, (x, y), val, items, lambda t: (load_parts(t)[0] == D and rowmajor(load_parts(t)[1], N) == (a, c))),
+                    who, "F5-no-pruning", "a test other than `operand == isize::MAX`, `sum < dist[a][c]` or an index coincidence can bypass "
+                    "the relaxation dist[a][c] = min(dist[a][c], dist[a][b] + dist[b][c])", sw["span"])
     return o.report(floors={"Floyd-Warshall": (o.instances, 1), "relaxation updates": (len(upd), 1)})
+
+
+def _fw_allowed_guard(dsc, operands, val, items, is_target_cell):
+    if dsc[0] == "un" and dsc[1] == "Not":
+        dsc = dsc[2]
+    if not (dsc[0] == "bin" and dsc[1] in ("Eq", "Ne", "Lt", "Le")):
+        return False
+    l, r = dsc[2], dsc[3]
+    imax = ("const", "isize", IMAX)
+    if dsc[1] in ("Eq", "Ne"):
+        if imax in (l, r) and (l in operands or r in operands):
+            return True
+        if l in items and r in items:
+            return True
+        return False
+    # sum < dist[a][c]  (or <=: writing an equal value changes nothing)
+    if l == val and r[0] == "mem" and is_target_cell(r):
+        return True
+    # dist[a][c] <= sum / dist[a][c] < sum used as the negated form
+    if r == val and l[0] == "mem" and is_target_cell(l):
+        return True
+    return False
 
 
 def fw_matrix_order_is_digraph_order(crate, S):
@@ -681,7 +719,139 @@ def rule_dm_queries(crate, prop, tier):
             o.undecide(who, nm + "-definition", "%s is not written over eccentricities() / the rows of dist.chunks(order) in a form the rule interprets" % nm)
         else:
             o.check(True, who, nm + "-definition", "")
-    return o.report(floors={"DistanceMatrix queries": (o.instances, 3)})
+    # center: argmin scan over all eccentricities; periphery: the vertices whose eccentricity equals the diameter
+    ce = method_of(crate, S, "center")
+    if o.check(ce is not None, "DistanceMatrix::center", "exists", "center not found"):
+        o.instances += 1
+        _center_clause(crate, o, ce, e)
+    pe = method_of(crate, S, "periphery")
+    if o.check(pe is not None, "DistanceMatrix::periphery", "exists", "periphery not found"):
+        o.instances += 1
+        _periphery_clause(crate, o, pe, e, d)
+    return o.report(floors={"DistanceMatrix queries": (o.instances, 5)})
+
+
+def _center_clause(crate, o, m, ecc_path):
+    who = "DistanceMatrix::center"
+    prog = crate.prog
+    an = crate.an(m)
+    fx = crate.fx(m)
+    IT = "core::iter::traits::iterator::Iterator::"
+    ecc = [ev for ev in an.events if ev["k"] == "call" and prog.key_to_path.get(ev["key"]) == ecc_path and ev["args"] == [("arg", 1)]]
+    nexts = []
+    for ev in an.events:
+        if ev["k"] == "call" and ev["key"] == IT + "next":
+            dsc = fx.iter_desc(ev)
+            if ecc and dsc and dsc != "CYCLE" and dsc[0] == "call" and dsc[1] == IT + "enumerate" and dsc[3][0] == ecc[0]["res"]:
+                nexts.append(ev)
+    cmps = [ev for ev in an.events if ev["k"] == "call" and ev["key"] == "core::cmp::Ord::cmp"]
+    if len(nexts) != 1 or len(cmps) != 1 or an.cfg.loop_of(cmps[0]["b"]) != an.cfg.loop_of(nexts[0]["b"]):
+        for ev, what in restrictions_in(crate, m):
+            o.check(False, who, "partial-scan:" + what, "center looks at only a part of the eccentricities (%s)" % what, ev["span"])
+        o.undecide(who, "center-definition", "center is not written as one `for (i, e) in eccentricities().enumerate()` loop around `e.cmp(&min)`")
+        return
+    N, C = nexts[0], cmps[0]
+    for ev, what in restrictions_in(crate, m):
+        o.check(False, who, "partial-scan:" + what, "center looks at only a part of the eccentricities (%s)" % what, ev["span"])
+    item = ("field", ("dc", N["res"], "Some"), "0")
+    i_t, e_t = mk_field(item, "0", 0), mk_field(item, "1", 1)
+    hb = an.cfg.loop_of(N["b"])
+    body = an.cfg.loops.get(hb, set())
+    o.check(complete_scan(an, fx, N), who, "center-all-vertices", "the scan over the eccentricities can end early", N["span"])
+    latches = [pb for pb, _ in an.cfg.pred[hb] if an.cfg.dominates(hb, pb)]
+    o.check(all(an.cfg.dominates(C["b"], lb) for lb in latches), who, "center-compares-every-vertex",
+            "an iteration can continue without comparing the vertex's eccentricity with the running minimum: such a vertex can "
+            "never be central (wrong when it is the minimum, e.g. when every eccentricity is infinite)", C["span"])
+    # operands: the item's eccentricity and the running minimum that starts at self.infinity
+    def loaded(t):
+        if t[0] in ("addr", "at") and t[2] is None:
+            vals = {v for (var, ver), v in an.term_of.items() if var == t[1] and v[0] != "opq"}
+            return t[1], vals
+        return None, set()
+    r1, v1 = loaded(C["args"][0])
+    r2, v2 = loaded(C["args"][1])
+    def is_e(vals):
+        return any(v[0] == "mem" and v[3] == e_t for v in vals) or e_t in vals
+    def is_min(vals):
+        return any(v[0] == "mem" and v[1] == "A1.infinity" for v in vals) and is_e(vals - {v for v in vals if v[0] == "mem" and v[1] == "A1.infinity"})
+    swapped = None
+    if is_e(v1) and not is_min(v1) and is_min(v2):
+        swapped = False
+    elif is_e(v2) and not is_min(v2) and is_min(v1):
+        swapped = True
+    if swapped is None:
+        o.undecide(who, "center-definition", "the operands of cmp are not (eccentricity of the vertex, running minimum started at infinity)")
+        return
+    lower, minreg = ("Greater", r1) if swapped else ("Less", r2)
+
+    def variant_at(b):
+        vs = set()
+        for w in fx.worlds_at(b):
+            got = [a[2] for a in w if a[0] == "variant" and a[1] == C["res"]]
+            vs.add(got[0] if len(got) == 1 else None)
+        return vs.pop() if len(vs) == 1 else None
+    pushes = [ev for ev in an.events if ev["k"] == "call" and ev["key"] == "alloc::vec::Vec::push" and ev["b"] in body]
+    clears = [ev for ev in an.events if ev["k"] == "call" and ev["key"] == "alloc::vec::Vec::clear" and ev["b"] in body]
+    mins = [ev for ev in an.events if ev["k"] == "store" and ev["region"] == minreg and ev["b"] in body]
+    pv = sorted(str(variant_at(ev["b"])) for ev in pushes)
+    o.check(pv == sorted([lower, "Equal"]) and all(ev["args"][1] == i_t for ev in pushes), who, "center-push",
+            "the vertex is not pushed exactly when its eccentricity is smaller than or equal to the running minimum", C["span"])
+    o.check(len(clears) == 1 and variant_at(clears[0]["b"]) == lower and
+            any(an.cfg.dominates(clears[0]["b"], ev["b"]) for ev in pushes if variant_at(ev["b"]) == lower), who, "center-clear",
+            "the list is not cleared exactly when a smaller eccentricity is found", C["span"])
+    o.check(len(mins) == 1 and variant_at(mins[0]["b"]) == lower and mins[0]["val"][0] == "mem" and mins[0]["val"][3] == e_t, who,
+            "center-min-update", "the running minimum is not set to the smaller eccentricity exactly when one is found", C["span"])
+    rets = [ev for ev in an.events if ev["k"] == "return"]
+    o.check(len(rets) == 1 and rets[0]["val"][0] == "mem" and pushes and pushes[0]["args"][0][0] == "addr"
+            and rets[0]["val"][1] == pushes[0]["args"][0][1], who, "center-returns-list", "the list is not what is returned")
+
+
+def _periphery_clause(crate, o, m, ecc_path, dia_path):
+    who = "DistanceMatrix::periphery"
+    prog = crate.prog
+    an = crate.an(m)
+    IT = "core::iter::traits::iterator::Iterator::"
+    ecc = [ev for ev in an.events if ev["k"] == "call" and prog.key_to_path.get(ev["key"]) == ecc_path and ev["args"] == [("arg", 1)]]
+    dia = [ev for ev in an.events if ev["k"] == "call" and prog.key_to_path.get(ev["key"]) == dia_path and ev["args"] == [("arg", 1)]]
+    rets = [ev for ev in an.events if ev["k"] == "return"]
+    ok = None
+    if ecc and dia and len(rets) == 1:
+        r = rets[0]["val"]
+        if r[0] == "call" and r[1] in (IT + "filter_map", IT + "filter") and len(r[3]) == 2 and r[3][0][0] == "call" \
+                and r[3][0][1] == IT + "enumerate" and r[3][0][3][0] == ecc[0]["res"] and r[3][1][0] == "agg" and r[3][1][1] == "closure":
+            from .closures import capture_map
+            cl = crate.an(r[3][1][2])
+            cm = capture_map(crate, cl)
+            crs = [ev for ev in cl.events if ev["k"] == "return"]
+            dcap = [cv for pv, cv in (cm.valmap if cm else []) if pv == dia[0]["res"]]
+            if len(crs) == 1 and r[1] == IT + "filter_map":
+                cr = crs[0]["val"]
+                if cr[0] == "call" and cr[1] == "bool::then_some" and len(cr[3]) == 2:
+                    cond, val = cr[3]
+                    item = ("arg", 2)
+                    ok = val == mk_field(item, "0", 0) and _is_eq_of(cl, cond, mk_field(item, "1", 1), dcap)
+    if ok is None:
+        o.undecide(who, "periphery-definition", "periphery is not written as eccentricities().enumerate().filter_map(|(i, e)| (e == diameter).then_some(i))")
+    else:
+        o.check(ok, who, "periphery-definition", "periphery does not select exactly the vertices whose eccentricity equals diameter()", rets[0].get("span"))
+
+
+def _is_eq_of(cl, cond, a, bs):
+    """cond is `a == b` for some b in bs, written with == or PartialEq::eq on references to exactly named places"""
+    def val(t):
+        if t[0] in ("at", "addr") and t[2] is None:
+            vs = {v for (var, ver), v in cl.term_of.items() if var == t[1] and v[0] != "opq"}
+            if len(vs) == 1:
+                return vs.pop()
+            return ("mem", t[1], t[3] if t[0] == "at" else ("e",), None)
+        return t
+    if cond[0] == "bin" and cond[1] == "Eq":
+        x, y = cond[2], cond[3]
+    elif cond[0] == "call" and cond[1] == "core::cmp::PartialEq::eq" and len(cond[3]) == 2:
+        x, y = val(cond[3][0]), val(cond[3][1])
+    else:
+        return False
+    return (x == a and y in bs) or (y == a and x in bs)
 
 
 def _mentions_infinity(cl, r):
@@ -745,4 +915,28 @@ def rule_terminate(crate, prop, tier):
         san = crate.an(s)
         calls = [ev for ev in san.events if ev["k"] == "call" and ev["key"] and ev["key"].endswith("PredecessorTree::search_by")]
         o.check(len(calls) == 1 and calls[0]["args"][1] == ("arg", 2), who, "search-delegates", "search(s, t) does not delegate to search_by from s")
+        if len(calls) == 1:
+            call = calls[0]
+            rets = [ev for ev in san.events if ev["k"] == "return"]
+            o.check(bool(rets) and all(ev["val"] == call["res"] for ev in rets), "PredecessorTree::search", "search-returns-delegate",
+                    "search(s, t) can return something other than the result of search_by(s, |v| v == t) (a shortcut around the walk "
+                    "along the predecessor links)", call["span"])
+            clo = call["args"][2] if len(call["args"]) == 3 else None
+            okp = False
+            if clo is not None and clo[0] == "agg" and clo[1] == "closure" and len(clo[3]) == 1:
+                from .closures import capture_map
+                can = crate.an(clo[2])
+                cm = capture_map(crate, can)
+                crets = [ev for ev in can.events if ev["k"] == "return"]
+                tcap = [cv for pv, cv in (cm.valmap if cm else []) if pv == ("arg", 3)]
+                rv = crets[0]["val"] if len(crets) == 1 else ("none",)
+                if rv[0] == "call" and rv[1] == "core::cmp::PartialEq::eq" and len(rv[3]) == 2 and \
+                        all(x[0] == "at" and x[2] is None for x in rv[3]):
+                    # usize::eq(&a, &b) on two exactly named places
+                    rv = ("bin", "Eq") + tuple(("mem", x[1], x[3], None) for x in rv[3])
+                if rv[0] == "bin" and rv[1] == "Eq":
+                    a, b = rv[2], rv[3]
+                    vparam = ("mem", "A2", ("e",), None)
+                    okp = (a in tcap and b == vparam) or (b in tcap and a == vparam)
+            o.check(okp, "PredecessorTree::search", "search-predicate", "the predicate handed to search_by is not `vertex == t`", call["span"])
     return o.report(floors={"search_by": (o.instances, 1)})
